@@ -240,7 +240,7 @@ func (cj *CookieJar) Release() {
 func searchCookieByKeyAndPath(key, path []byte, cookies []*fasthttp.Cookie) *fasthttp.Cookie {
 	for _, c := range cookies {
 		if bytes.Equal(key, c.Key()) {
-			if len(path) <= 1 || bytes.HasPrefix(c.Path(), path) {
+			if bytes.Equal(c.Path(), path) || (len(path) <= 1 && len(c.Path()) <= 1) {
 				return c
 			}
 		}
